@@ -363,6 +363,14 @@ impl<W: Write + io::Seek> ZipWriter<W> {
     where
         S: Into<String>,
     {
+        let name = name.into();
+        if name.len() > spec::ZIP64_ENTRY_THR {
+            // the length field of a file name is 16 bits wide
+            return Err(ZipError::Io(io::Error::new(
+                io::ErrorKind::InvalidInput,
+                "File name is longer than 65535 bytes",
+            )));
+        }
         self.finish_file()?;
 
         let raw_values = raw_values.unwrap_or(ZipRawValues {
@@ -387,7 +395,7 @@ impl<W: Write + io::Seek> ZipWriter<W> {
                 crc32: raw_values.crc32,
                 compressed_size: raw_values.compressed_size,
                 uncompressed_size: raw_values.uncompressed_size,
-                file_name: name.into(),
+                file_name: name,
                 file_name_raw: Vec::new(), // Never used for saving
                 extra_field: Vec::new(),
                 file_comment: String::new(),
@@ -830,6 +838,13 @@ impl<W: Write + io::Seek> ZipWriter<W> {
     }
 
     fn finalize(&mut self) -> ZipResult<()> {
+        if self.comment.len() > spec::ZIP64_ENTRY_THR {
+            // the length field of the archive comment is 16 bits wide
+            return Err(ZipError::Io(io::Error::new(
+                io::ErrorKind::InvalidInput,
+                "Archive comment is longer than 65535 bytes",
+            )));
+        }
         self.finish_file()?;
 
         {
